@@ -243,9 +243,17 @@ fn explore_shape_masked(ends: &[f64], with_nan: bool, mask: &[u64], abort: &dyn 
     let mut idx = vec![0usize; d3];
     'outer: loop {
         let mut ev = PiecewiseEvaluator::new(&pw.segments);
-        for &i in &idx {
+        for (pos, &i) in idx.iter().enumerate() {
             ev.evaluate(alpha[i]);
-            if !keyset.contains(&key_of(&ev, &pw, mask)) {
+            let k1 = key_of(&ev, &pw, mask);
+            if !keyset.contains(&k1) {
+                // the same history materialised the way the search does it: object bits that differ between the two are not a
+                // function of the history (padding that the poisoning did not reveal) - mask them and start the shape over
+                let hist: Vec<u16> = idx[..=pos].iter().map(|&j| j as u16).collect();
+                let k2 = key_of(&materialise(&pw, &alpha, &hist), &pw, mask);
+                if k1 != k2 && (k1.0, k1.1, k1.2) == (k2.0, k2.1, k2.2) && k1.3.len() == k2.3.len() {
+                    return Err(k1.3.iter().zip(&k2.3).map(|(a, b)| a ^ b).collect());
+                }
                 machinery("engine B: a state reached by a bounded history is missing from the fixpoint (search not closed)");
             }
         }
